@@ -54,6 +54,20 @@ def snapshot():
         if isinstance(obj, _MUTABLE) and id(obj) not in seen:
             seen.add(id(obj))
             containers.append((obj, _copy(obj)))
+            # a container subclass (e.g. the MethodDispatcher tables that are class
+            # attributes of every phase) may carry attributes of its own
+            d = getattr(obj, "__dict__", None)
+            if isinstance(d, dict):
+                instances.append((obj, dict(d)))
+
+    def add_instance(v):
+        if id(v) in seen or not hasattr(v, "__dict__"):
+            return
+        seen.add(id(v))
+        d = vars(v)
+        for av in list(d.values()):
+            add_container(av)
+        instances.append((v, dict(d)))
 
     for mname, mod in list(sys.modules.items()):
         if mod is None or not _is_lib_module(mname):
@@ -74,6 +88,10 @@ def snapshot():
                 for a, av in list(vars(v).items()):
                     if not a.startswith("__"):
                         add_container(av)
+                        if (not isinstance(av, (type, types.FunctionType, types.BuiltinFunctionType, property, staticmethod,
+                                                classmethod, str, bytes, int, float, tuple, frozenset, bool, type(None)) + _MUTABLE)
+                                and type(av).__module__.startswith("html5lib")):
+                            add_instance(av)
                     fn = av
                     if hasattr(fn, "cache_clear") and callable(getattr(fn, "cache_clear", None)):
                         clearers.append(fn.cache_clear)
